@@ -35,6 +35,16 @@ def gen_program(rng, n_ops, allow):
     return ops
 
 
+def to_int(a):
+    """Unsigned integer code of a dealt value: field element, plain int, or raw gfpx polynomial."""
+    if isinstance(a, int):
+        return a
+    if hasattr(a, 'field') or type(a).__name__.endswith('FieldElement') or hasattr(type(a), 'modulus'):
+        v = a.value
+        return v if isinstance(v, int) else int(v)
+    return int(a)
+
+
 def run(ctx):
     from lib.sim import Sim, Fifo, RandomOrder
     import random
@@ -49,11 +59,14 @@ def run(ctx):
     for (m, t) in configs:
         for no_prss in (False, True):
             for rep in range(ctx.n(2, 5)):
-                tname = rng.choice(['secint16', 'secint32', 'secfld101', 'secfld_big']) if m < 101 else 'secint16'
+                tname = ['secint16', 'secfld101', 'secint32', 'secfld_big', 'secfld101'][rep % 5] if rep < 5 else rng.choice(['secint16', 'secint32', 'secfld101', 'secfld_big'])
                 seed = rng.randrange(10**6)
                 nops = ctx.n(10, 16)
                 prog_ops = [rng.choice(['add', 'sub', 'neg', 'scal', 'mul', 'mul', 'mul', 'sq', 'rand', 'cmp', 'addc', 'recip', 'bits'])
                             for _ in range(nops)]
+                if tname.startswith('secfld'):
+                    prog_ops[0] = 'recip'      # small-field reciprocal (zero-sharing masked opening) in every field program
+                    prog_ops[-1] = 'recip'
                 picks = [(rng.randrange(10**6), rng.randrange(10**6), rng.randrange(-5, 6)) for _ in range(nops)]
                 inputs = [rng.choice([0, 1, -1, 2, 3, -7, 11]) for _ in range(m)]
                 sim = Sim(m, t, no_prss=no_prss, seed=seed)
@@ -68,7 +81,7 @@ def run(ctx):
                             sec = sim.secrets[_i]
                             n0 = len(sec.log)
                             pc = sim.mpcs[_i]._program_counter[0]
-                            vals = [int(a.value) if hasattr(a, 'value') else int(a) for a in s]
+                            vals = [to_int(a) for a in s]
                             r = _o(field, s, tt, mm)
                             drawn = [e[2] for e in sec.log[n0:]]
                             deal_log[_i].append({'pc': pc, 'vals': vals, 't': tt, 'm': mm, 'drawn': drawn})
@@ -96,6 +109,7 @@ def run(ctx):
                             rec.append(('input', int((await mpc.gather(v)).value)))
                         vals = list(vals)
                         for k, (a, b, c) in zip(prog_ops, picks):
+                            nbefore = len(deal_log[pid])
                             ia, ib = a % len(vals), b % len(vals)
                             if k == 'cmp' or (k == 'recip' and not tname.startswith('secfld')):
                                 ia, ib = a % m_, b % m_      # comparisons / abs only on the (small, in-range) inputs
@@ -130,8 +144,9 @@ def run(ctx):
                                     z = abs(x)
                             elif k == 'bits':
                                 z = mpc.random_bits(st, 2)[1]
+                            nb = nbefore
                             sh = int((await mpc.gather(z)).value)
-                            rec.append((k, ia, ib, c, sh))
+                            rec.append((k, ia, ib, c, nb, len(deal_log[pid]), sh))
                             vals.append(z)
                         outs = await mpc.output(vals)
                         outs = [int(o.value) if hasattr(o, 'value') else int(o) for o in outs]
@@ -202,27 +217,23 @@ def run(ctx):
                                 s1 = [res[q]['rec'][ia][-1] for q in range(m)]
                                 s2 = [res[q]['rec'][ib][-1] for q in range(m)]
                                 col = [res[q]['rec'][j][-1] for q in range(m)]
-                                # the dealers' next dealing; all must carry the same label
+                                # the dealings made while this operation was computed (each party awaits the result
+                                # before starting the next operation): one per dealer, all with the same label
                                 prod = [(a * b) % p for a, b in zip(s1, s2)]
                                 ent = {}
                                 for q in range(m):
-                                    if ptr[q] < len(deal_log[q]) and deal_log[q][ptr[q]]['vals'] == [prod[q]]:
-                                        ent[q] = deal_log[q][ptr[q]]
-                                pcs = {e['pc'] for e in ent.values()}
-                                if len(pcs) != 1 or len(ent) != 2 * t + 1:
-                                    # cannot align the log (e.g. rand without PRSS deals in between): advance by search
-                                    ent = {}
-                                    for q in range(m):
-                                        for z in range(ptr[q], len(deal_log[q])):
-                                            if deal_log[q][z]['vals'] == [prod[q]]:
-                                                ent[q] = deal_log[q][z]
-                                                break
-                                    pcs = {e['pc'] for e in ent.values()}
-                                if len(pcs) != 1:
-                                    ctx.broken.append({'kind': 'replay-alignment', 'case': key, 'index': j})
+                                    rq = res[q]['rec'][j]
+                                    if rq[5] - rq[4] == 1:
+                                        ent[q] = deal_log[q][rq[4]]
+                                    elif rq[5] - rq[4] > 1:
+                                        ent = None
+                                        break
+                                if not ent or len({e['pc'] for e in ent.values()}) != 1 or \
+                                        any(e['vals'] != [prod[q]] for q, e in ent.items()):
+                                    ctx.broken.append({'kind': 'replay-alignment', 'case': key, 'index': j,
+                                                       'dealings': str(ent)[:300], 'local_products': prod})
                                     continue
-                                for q, e in ent.items():
-                                    ptr[q] = deal_log[q].index(e) + 1
+                                pcs = {e['pc'] for e in ent.values()}
                                 pc = pcs.pop()
                                 uci = pc % m
                                 want_dealers = sorted((uci + jj) % m for jj in range(2 * t + 1))
